@@ -45,6 +45,12 @@ tl:
     .size tg,16
 tg:
     .quad 0x7201, 0x7202
+    .globl tpr
+    .protected tpr
+    .type tpr,@object
+    .size tpr,16
+tpr:
+    .quad 0x7401, 0x7402
     .section .tbss,"awT",@nobits
     .p2align 4
 tbpad:
